@@ -136,6 +136,8 @@ def run(prop, tier, seed, replay, clauses, n_quick, n_thorough, rule, gen_kw=Non
         q = V.placement_variant(V.declorder_variant(q, rng), rng)
         plans[i] = q
     for pl in plans:
+        if pl.mode == "trait" and rng.random() < 0.12:
+            pl.items = list(pl.items) + [("gfn", "mkarr", False)]     # a generic method (const before type parameter) among the delegated items
         if pl.mode == "trait" and rng.random() < 0.08:
             pl.header_qual = "self::"      # blocks naming the invocation's trait through a qualified path (D46)
     evs = PC.evaluate(so, plans)
